@@ -103,12 +103,16 @@ func init() {
 		st.assume(And(Le(IntLit(unixToInternal), abs), Le(abs, IntLit(315537897599))))
 		return ex.mkTime(abs, ns, Var("time.Local", "Loc"))
 	})
-	reg("(time.Month).String", func(ex *Exec, st *State, instr ssa.Instruction, args []Value) Value { return ex.fresh("month.str", SStr) })
+	reg("(time.Month).String", func(ex *Exec, st *State, instr ssa.Instruction, args []Value) Value {
+		return ex.fresh("month.str", SStr)
+	})
 	reg("(time.Weekday).String", func(ex *Exec, st *State, instr ssa.Instruction, args []Value) Value {
 		return App("time.weekdayName", SStr, args[0].(*Term))
 	})
 	reg("(time.Duration).String", func(ex *Exec, st *State, instr ssa.Instruction, args []Value) Value { return ex.fresh("dur.str", SStr) })
-	reg("(time.Time).String", func(ex *Exec, st *State, instr ssa.Instruction, args []Value) Value { return ex.fresh("time.str", SStr) })
+	reg("(time.Time).String", func(ex *Exec, st *State, instr ssa.Instruction, args []Value) Value {
+		return ex.fresh("time.str", SStr)
+	})
 	reg("(time.Time).Format", modelTimeFormat)
 	reg("time.Date", modelTimeDate)
 	reg("time.ParseInLocation", modelParseInLocation)
